@@ -142,6 +142,7 @@ type Item struct {
 	Members   []Member
 	FlateStm  bool // compress the object stream body
 	IsObjStm  bool
+	StmLenRef int // object stream only: write /Length as "StmLenRef 0 R" (the caller defines that object)
 	PadBefore int // white-space bytes written before the object (layout noise)
 }
 
@@ -277,7 +278,7 @@ func (f *File) Bytes() ([]byte, *Layout, error) {
 					data = deflate(data)
 					d = append(d, KV{"Filter", Name("FlateDecode")})
 				}
-				writeObj(it.Num, "", &Stream{Dict: d, Data: data})
+				writeObj(it.Num, "", &Stream{Dict: d, Data: data, LengthRef: it.StmLenRef})
 			case it.Stm != nil:
 				writeObj(it.Num, "", it.Stm)
 			default:
